@@ -7,8 +7,9 @@
 //      A chain of n bodies with one slide joint each is built through the mjSpec API (nq = nv = n); the checked
 //      vector, the warning record, the autoreset / sleep flags, qpos0 (for pos: vec0) and the awake-index list are
 //      written into the real mjModel / mjData, then the real check function is called.  `reset` is observed
-//      through d->time (set to 7 before the call, 0 after mj_resetData), `forward` through d->xmat (zeroed
-//      before the call, recomputed by mj_forward).  After a forward the acceleration vector is whatever the
+//      through d->time (set to 7 before the call, 0 after mj_resetData), `forward` through d->qfrc_bias (zeroed
+//      before the call; gravity makes it non-zero after mj_forward; mj_resetData alone leaves it zero, also when
+//      sleeping is enabled and the reset runs the kinematics).  After a forward the acceleration vector is whatever the
 //      engine computed: printed as "fwd".
 #include <math.h>
 #include <setjmp.h>
@@ -105,11 +106,11 @@ int main(void) {
       d->nv_awake = k;
       for (int i = 0; i < k; i++) d->dof_awake_ind[i] = awake[i];
       d->time = 7;
-      memset(d->xmat, 0, sizeof(mjtNum) * 9 * m->nbody);
+      memset(d->qfrc_bias, 0, sizeof(mjtNum) * m->nv);
       if (W == 0) mj_checkPos(m, d); else if (W == 1) mj_checkVel(m, d); else mj_checkAcc(m, d);
       int reset = d->time == 0;
       int fwd = 0;
-      for (int i = 0; i < 9 * m->nbody; i++) fwd |= d->xmat[i] != 0;
+      for (int i = 0; i < m->nv; i++) fwd |= d->qfrc_bias[i] != 0;
       printf("%d %d %d %d", d->warning[warn].number, d->warning[warn].lastinfo, reset, fwd);
       target = W == 0 ? d->qpos : W == 1 ? d->qvel : d->qacc;
       if (fwd) printf(" fwd");
